@@ -73,7 +73,7 @@ impl Timeline {
         let mut f = 0u8;
         for (dt, df) in &self.points[..=i] {
             t += (*dt).max(1) as i64;
-            f = (f + df).min(QTY - 1);
+            f = f.saturating_add(*df).min(QTY - 1);
         }
         Some((t, f))
     }
@@ -739,6 +739,24 @@ fn op(consistent: bool) -> BoxedStrategy<Op> {
 impl Check for OrdersLifecycle {
     type Case = OrdersCase;
     const NAME: &'static str = "orders_lifecycle";
+
+    fn normalise(mut case: OrdersCase) -> OrdersCase {
+        case.timelines.truncate(N_CIDS as usize);
+        while case.timelines.len() < N_CIDS as usize {
+            case.timelines.push(Timeline { points: vec![], terminal: Terminal::StillOpen, sent_by_engine: case.timelines.len() % 2 == 0 });
+        }
+        for t in &mut case.timelines {
+            t.points.truncate(6);
+            for p in &mut t.points {
+                *p = (1 + p.0 % 3, p.1 % 3);
+            }
+            if t.terminal == Terminal::OpenFailed {
+                t.points.clear();
+            }
+        }
+        case
+    }
+
 
     fn strategy(tier: Tier) -> BoxedStrategy<OrdersCase> {
         let max = match tier {
